@@ -276,7 +276,7 @@ pub fn other_builders() -> Vec<(&'static str, SerBuilder)> {
     }
     v.push(("count-vectorizer-regex", |_| {
         let m = CountVectorizer::params().n_gram_range(1, 2).document_frequency(0.0, 0.9).fit(&Array1::from(DOCS.to_vec())).map_err(es)?;
-        ser!("count-vectorizer-regex", m, noeq, vec_behaviour)
+        ser!("count-vectorizer-regex", m, unordered, vec_behaviour)
     }));
     v.push(("count-vectorizer-stopwords-cap", |_| {
         let m = CountVectorizer::params().stopwords(&["the", "over"]).max_features(Some(6)).normalize(true).fit(&Array1::from(DOCS.to_vec())).map_err(es)?;
@@ -299,7 +299,7 @@ pub fn other_builders() -> Vec<(&'static str, SerBuilder)> {
     }));
     v.push(("tfidf-vectorizer", |_| {
         let m = TfIdfVectorizer::default().n_gram_range(1, 2).fit(&Array1::from(DOCS.to_vec())).map_err(es)?;
-        ser!("tfidf-vectorizer", m, noeq, |m: &linfa_preprocessing::tf_idf_vectorization::FittedTfIdfVectorizer| {
+        ser!("tfidf-vectorizer", m, unordered, |m: &linfa_preprocessing::tf_idf_vectorization::FittedTfIdfVectorizer| {
             let mut out = vec![];
             let mut vocab: Vec<(String, usize)> = m.vocabulary().iter().cloned().enumerate().map(|(i, w)| (w, i)).collect();
             vocab.sort();
